@@ -42,6 +42,25 @@ int main() {
           if (!same || oa != ob) printf("BAD %s on %s (tuple %d): C returns %.17g, masa_eval_%s<double> returns %.17g%s\n", c.sym, sol.c_str(), t, a, c.fn, b, oa != ob ? " (stdout differs)" : "");
         }
       }
+      // non-evaluator wrappers on this solution: name (canary-filled buffer), dimension, every parameter through both views,
+      // display text, statuses of sanity/purge/init_param, every vector through get_array
+      if (sol != "masa_test_function") {
+        char buf[512]; memset(buf, '#', sizeof buf); buf[511] = 0; std::string cpp; int sc = masa_get_name(buf), sp = masa_get_name<double>(&cpp); n++;
+        if (sc != sp || cpp != buf) printf("BAD masa_get_name on %s: C wrote '%.80s' (status %d), C++ returns '%s' (status %d)\n", sol.c_str(), buf, sc, cpp.c_str(), sp);
+        else if (buf[cpp.size() + 1] != '#') printf("BAD masa_get_name on %s: wrote beyond the terminating NUL\n", sol.c_str());
+        int d1 = -5, d2 = -6, s1 = masa_get_dimension(&d1), s2 = masa_get_dimension<double>(&d2); n++; if (d1 != d2 || s1 != s2) printf("BAD masa_get_dimension on %s: C (%d,%d) C++ (%d,%d)\n", sol.c_str(), s1, d1, s2, d2);
+        std::string o1 = capture([] { masa_display_param(); }), o2 = capture([] { masa_display_param<double>(); }); n++; if (o1 != o2) printf("BAD masa_display_param on %s: C and C++ print different text\n", sol.c_str());
+        std::vector<std::string> pn; { std::istringstream ps(o2); std::string line; while (std::getline(ps, line)) { size_t p = line.find(" is set to:"); if (p != std::string::npos) pn.push_back(line.substr(0, p)); } }
+        int k = 0;
+        for (auto& p : pn) { double a = masa_get_param(p.c_str()), b = masa_get_param<double>(p); n++; if (memcmp(&a, &b, 8)) printf("BAD masa_get_param(%s) on %s: C %.17g C++ %.17g\n", p.c_str(), sol.c_str(), a, b);
+          double v = 0.5 + 0.25 * (++k); masa_set_param(p.c_str(), v); double c = masa_get_param<double>(p); n++; if (c != v) printf("BAD masa_set_param(%s) on %s: C++ reads %.17g after the C call set %.17g\n", p.c_str(), sol.c_str(), c, v); }
+        o1 = capture([] { masa_display_array(); }); o2 = capture([] { masa_display_vec<double>(); }); n++; if (o1 != o2) printf("BAD masa_display_array on %s differs from masa_display_vec<double>\n", sol.c_str());
+        { std::istringstream vs(o2); std::string line; while (std::getline(vs, line)) { size_t p = line.find(" is size: "); if (p == std::string::npos) continue; std::string vn = line.substr(0, p); std::vector<double> v; int st = masa_get_vec<double>(vn, v); double arr[512]; for (double& x : arr) x = -777; int m = -3; int sa = masa_get_array(vn.c_str(), &m, arr); n++;
+            bool ok = sa == st && m == (int)v.size(); for (int i = 0; ok && i < m; i++) ok = memcmp(&arr[i], &v[i], 8) == 0; if (ok && arr[m] != -777) ok = false; if (!ok) printf("BAD masa_get_array(%s) on %s differs from masa_get_vec<double>\n", vn.c_str(), sol.c_str()); } }
+        int a1, a2; std::string q1 = capture([&] { a1 = masa_sanity_check(); }), q2 = capture([&] { a2 = masa_sanity_check<double>(); }); n++; if (a1 != a2 || q1 != q2) printf("BAD masa_sanity_check on %s: C %d C++ %d\n", sol.c_str(), a1, a2);
+        a1 = masa_purge_default_param(); capture([&] { a2 = masa_sanity_check(); }); int a3; capture([&] { a3 = masa_sanity_check<double>(); }); n++; if (a2 != a3 || (a3 == 0 && !pn.empty())) printf("BAD purge/sanity through C on %s: C sanity %d, C++ sanity %d\n", sol.c_str(), a2, a3);
+        a1 = masa_init_param(); capture([&] { a2 = masa_sanity_check<double>(); }); n++; if (a1 != 0 || a2 != 0) printf("BAD masa_init_param through C on %s: status %d, sanity afterwards %d\n", sol.c_str(), a1, a2);
+      }
       fflush(stdout); ssize_t w = write(pfd[1], &n, sizeof n); (void)w; unlink(g_cap.c_str()); _exit(0);
     }
     close(pfd[1]); long n = 0; ssize_t r = read(pfd[0], &n, sizeof n); (void)r; close(pfd[0]); int st; waitpid(pid, &st, 0); total += n;
